@@ -70,6 +70,19 @@ theorem hdrWant_take (f : Frame) (j : Nat) :
 end VncModel.Ws
 namespace VncModel.Ws
 
+/-- a valid frame never carries a reserved opcode -/
+theorem not_reserved_of_ok (f : Frame) (co : Byte) (hok : f.ok co) : isReservedOp f.opcode = false := by
+  obtain ⟨_, hctl, hdat⟩ := hok
+  by_cases hc : f.isControl = true
+  · rcases (hctl hc).2.1 with h | h <;> rw [h] <;> decide
+  · have hc' : f.isControl = false := by simpa using hc
+    obtain ⟨_, h4⟩ := hdat hc'
+    by_cases h0 : f.opcode = opContinuation
+    · rw [h0]; decide
+    · have : f.effOp co = f.opcode := by simp [Frame.effOp, hc', h0]
+      rw [this] at h4
+      rcases h4 with h4 | ⟨h4, _⟩ <;> rw [h4] <;> decide
+
 theorem parse2_short (f : Frame) (j : Nat) (hj : j < 2) (opc fin : Byte) (pl : Nat) (co' : Byte) :
     parse2 (ctxAtHeader (f.header.take j) opc fin pl co') = .pending := by
   obtain ⟨tl, htl⟩ := header_cons f
@@ -85,6 +98,8 @@ theorem parse2_ok (f : Frame) (co co' : Byte) (hok : f.ok co) (j : Nat) (hj : 2 
   obtain ⟨tl, htl⟩ := header_cons f
   obtain ⟨hl7, hmask, _, _⟩ := b1_facts f
   obtain ⟨k, rfl⟩ : ∃ k, j = k + 2 := ⟨j - 2, by omega⟩
+  have hres : isReservedOp f.opcode = false := not_reserved_of_ok f co hok
+  have heffc := effOp_isControl f co hok
   obtain ⟨_, hctl, hdat⟩ := hok
   rw [htl]
   simp only [List.take_succ_cons, parse2, ctxAtHeader, Ctx.isControl]
@@ -98,21 +113,26 @@ theorem parse2_ok (f : Frame) (co co' : Byte) (hok : f.ok co) (j : Nat) (hj : 2 
       rcases hco with h | h
       · exact h
       · rw [h]; simp [Frame.nextCo, hc]
-    simp only [hc2, if_true, hfn, if_false, hmask, hl7]
+    have hle : ¬ (125 < f.l7) := by
+      have := (hctl hc).2.2
+      unfold Frame.l7; split <;> omega
+    simp only [hres, Bool.false_eq_true, hc2, if_true, hfn, if_false, hmask, hl7, hle, true_and]
     simp [Frame.effOp, Frame.nextCo, hc, hco']
   · have hc' : f.isControl = false := by simpa using hc
     have hc2 : (f.opcode &&& 0x08 != 0) = false := hc'
     obtain ⟨hcont, _⟩ := hdat hc'
-    simp only [hc2, Bool.false_eq_true, if_false]
+    simp only [hres, hc2, Bool.false_eq_true, if_false]
     by_cases h0 : f.opcode = opContinuation
     · have hco' : co' = co := by
         rcases hco with h | h
         · exact h
         · rw [h]; simp [Frame.nextCo, hc', h0]
       have hne := hcont h0
-      simp only [h0, if_true, hco', hne, if_false, hmask, hl7]
+      have heff : f.effOp co = co := by simp [Frame.effOp, hc', h0]
+      have hcoc : (co &&& 0x08 != 0) = false := by rw [← heff, heffc, hc']
+      simp only [h0, if_true, hco', hne, if_false, hmask, hl7, hcoc, Bool.false_eq_true, false_and]
       simp [Frame.effOp, Frame.nextCo, hc', h0]
-    · simp only [h0, if_false, hmask, hl7]
+    · simp only [h0, if_false, hmask, hl7, hc2, Bool.false_eq_true, false_and]
       simp [Frame.effOp, Frame.nextCo, hc', h0]
 
 end VncModel.Ws
